@@ -473,8 +473,36 @@ def handleLegacy (j : Json) : P Json := do
       ("arrays", Json.mkObj (l.map (fun (n, a) => (n, arrayValToJson a))))])
   | .error e => pure (errToJson e)
 
+-- ---------- class registry (C06)
+
+partial def memberOfJson (j : Json) : P PyMember := do
+  if let some c := optField j "cls" then
+    return .cls (← c.getNat?) (← (← j.getObjVal? "emd").getBool?)
+  if let some ms := optField j "mod" then
+    let hook := match optField j "hook" with
+      | some (.bool true) => Hook.yes
+      | some (.num n) => if n == JsonNumber.fromNat 1 then Hook.one else Hook.other
+      | some _ => Hook.other
+      | none => Hook.absent
+    let members ← (← ms.getArr?).toList.mapM (fun e => do
+      let pr ← e.getArr?
+      if pr.size != 2 then throw "bad member"
+      pure ((← pr[0]!.getStr?), (← memberOfJson pr[1]!)))
+    return .mod hook members
+  return .other
+
+def handleRegistry (j : Json) : P Json := do
+  let mods ← (← arrField j "modules").mapM (fun e => do
+    let pr ← e.getArr?
+    if pr.size != 2 then throw "bad module"
+    pure ((← pr[0]!.getStr?), (← memberOfJson pr[1]!)))
+  let names ← strListOfJson (← j.getObjVal? "names")
+  pure (Json.mkObj (names.map (fun n =>
+    (n, match getClass EmdGen.walkMaxDepth mods n with | some i => ((i : Nat) : Json) | none => Json.str "error"))))
+
 def handle (op : String) (j : Json) : P Json := do
   match op with
+  | "registry" => handleRegistry j
   | "legacy" => handleLegacy j
   | "points" => handlePoints j
   | "md" => handleMd j
